@@ -17,6 +17,7 @@ import (
 	"time"
 
 	"ergo.services/ergo/gen"
+	"ergo.services/ergo/lib"
 )
 
 func init() { props["C04"] = runC04 }
@@ -398,7 +399,7 @@ func c04histories(c *Ctx) {
 // c04race: K3 on the request-vs-termination race.
 func c04race(c *Ctx) {
 	r := c.R
-	node, err := startQuietNode("c04r")
+	node, err := startQuietNodeOpts("c04r", func(o *gen.NodeOptions) { o.TargetManager = &tmPark{gen.CreateDefaultTargetManager()} })
 	if err != nil {
 		r.Disagree("c04.node", err.Error(), nil)
 		return
@@ -412,7 +413,8 @@ func c04race(c *Ctx) {
 		{"R", "S", "T", "T"}, // request completes before the terminator starts
 		{"S", "R", "T", "T"}, // insert between the table delete and the drain
 		{"S", "T", "R", "T"}, // insert after the drain of the pid relations (the lost-relation window for pid targets)
-		{"S", "T", "T", "R"}, // insert after the terminator finished completely
+		{"S", "T", "T", "R", "T"}, // name/alias/event targets: insert right after the drain of that target's relations
+		{"S", "T", "T", "T", "R"}, // insert after the terminator finished completely
 	}
 	rounds := c.N(1, 10)
 	var lines, wants []string
@@ -481,6 +483,18 @@ func c04race(c *Ctx) {
 			break
 		}
 	}
+}
+
+// tmPark is the node's TargetManager with one more yield point: after the relations of a name, alias or event
+// target were drained (pid targets have the "unreg:drained" hook already).
+type tmPark struct{ gen.TargetManager }
+
+func (t *tmPark) CleanupTarget(target any) (links []gen.PID, monitors []gen.PID) {
+	links, monitors = t.TargetManager.CleanupTarget(target)
+	if _, isPID := target.(gen.PID); !isPID {
+		lib.VerifPoint(target, "tm:drained")
+	}
+	return
 }
 
 type c04raceRes struct {
@@ -579,6 +593,16 @@ func c04raceOnce(k *K4, kind string, sched []string) c04raceRes {
 		if _, _, _, err := ctl.Step(name); err != nil {
 			res.stuck = err.Error()
 			break
+		}
+	}
+	// let the terminator run to its end under the controller (its later legs send the notifications)
+	for i := 0; i < 8 && res.stuck == ""; i++ {
+		t := ctl.Find("T")
+		if t == nil || !t.parked {
+			break
+		}
+		if _, _, _, err := ctl.Step("T"); err != nil {
+			res.stuck = err.Error()
 		}
 	}
 	res.trace = append([]string(nil), ctl.Trace...)
